@@ -18,8 +18,7 @@ META = {
              'or a re-create of a deleted handle or an aborted transaction; distinct by program'),
     'assumptions': ['a descriptor is always created together with its state (documented assumption of '
                     'DescriptorTransaction.process_transaction)',
-                    'sub-operations that touch a member of a subtree deleted in the same transaction are not generated '
-                    'in the campaign (recorded as a separate probe)'],
+                    ],
 }
 
 FIXTURES = ['mdib_two_mds.xml', '70041_MDIB_Final.xml']
